@@ -138,9 +138,9 @@ var propSpecs = []PropSpec{
 	},
 	{
 		ID:          "C04",
-		Rules:       []string{"C04.GRAMMAR", "C04.LL1", "C04.TREE", "C04.ONE", "C04.LEX"},
+		Rules:       []string{"C04.GRAMMAR", "C04.LL1", "C04.TREE", "C04.ONE", "C04.LEX", "C04.NUM"},
 		Explanation: "The grammar implemented by the recursive descent parser is extracted from the SSA form: each parse function becomes an automaton whose letters are token kinds consumed by next() (restricted by the look-ahead tests that dominate the consumption on that path) and calls of other parse functions with their look-ahead context; paths through an error report or a failed callee accept nothing. (GRAMMAR) every extracted production is language-equal (subset construction, product search) to the documented production restricted to the calling context, and Parse is exactly parseLogicalOr followed by the end marker - equal productions imply the same language for inputs of every length; (LL1) wherever a function returns under a look-ahead restriction, no token of the FOLLOW set of its nonterminal is excluded, so the greedy parser accepts exactly the context-free language; (TREE) operands of each operator level come from the next-tighter level, binary nodes get the kind constant of their own operator (token kind X builds comparison kind X) and Left/Right in source order, keywords build their literal nodes; (ONE) parser and lexer record only the first error, nobody else writes the error fields, and the rule reports a syntax error exactly once without checking semantics.",
-		NotDecided:  "value-level restrictions (integer range, float syntax accepted by strconv); the position of the syntax diagnostic (C07)",
+		NotDecided:  "value-level rejections that remain after the 64-bit conversions (integers beyond 2^63, floats beyond the float64 range are still reported as errors); the position of the syntax diagnostic (C07)",
 		Assumptions: commonAssumptions,
 	},
 	{
